@@ -73,16 +73,22 @@ DiffOf(w, C1, D, t, relink) ==
         new |-> {k \in add \cup mod \cup (redo \ unprotectOnly) : NewOid(t, k)[1] = "f"},
         any |-> del \cup add \cup mod \cup redo # {}]
 
+\* a directory that holds a dangling symbolic link (its object left the cache) cannot be hashed: the checkout does not
+\* know what is there and refuses with FileNotFoundError before touching anything (after the F15 repair; before it the
+\* directory was taken to be absent and its files were overwritten as if new)
+Unreadable(w) == w.kind = "dir" /\ \E k \in Keys : w.files[k] # NoFile /\ w.files[k].c = "dangling"
 Begin(t, force, relink, prompt, withState) ==
     /\ Idle /\ n < MaxCheckouts
-    /\ LET C1 == Checked(cache, ws, t)
+    /\ LET C1 == IF Unreadable(ws) THEN cache ELSE Checked(cache, ws, t)
            d == DiffOf(ws, C1, dirobjs, t, relink)
        IN /\ cache' = C1
-          /\ todoDel' = d.del /\ todoNew' = d.new
-          /\ needRm' = {k \in d.new : OldOid(ws, k) # <<"none">>}
+          /\ todoDel' = IF Unreadable(ws) THEN {} ELSE d.del
+          /\ todoNew' = IF Unreadable(ws) THEN {} ELSE d.new
+          /\ needRm' = IF Unreadable(ws) THEN {} ELSE {k \in d.new : OldOid(ws, k) # <<"none">>}
+          /\ failed' = IF Unreadable(ws) THEN {"!dangling"} ELSE {}
           /\ args' = [t |-> t, force |-> force, relink |-> relink, prompt |-> prompt, diff |-> d.any, state |-> withState, pcache |-> cache,
                       pre |-> ws, mkroot |-> (t.kind = "tree" /\ Root \in d.add \cup d.mod)]
-    /\ pc' = "run" /\ pend' = "-" /\ failed' = {} /\ res' = [kind |-> "running"] /\ touched' = {}
+    /\ pc' = "run" /\ pend' = "-" /\ res' = [kind |-> "running"] /\ touched' = {}
     /\ act' = [op |-> "Begin", t |-> t, force |-> force, relink |-> relink, prompt |-> prompt, state |-> withState]
     /\ n' = n + 1
     /\ UNCHANGED <<ws, dirobjs, dev>>
@@ -196,18 +202,35 @@ End ==
     /\ act' = [op |-> "End"]
     /\ UNCHANGED <<cache, dirobjs, args, todoDel, needRm, touched, dev, n>>
 
+\* between two checkouts (of one process) an object leaves the cache - a gc that no longer counts it as used, a manual
+\* clean-up.  Workspace files that were links to it lose it: a hard link becomes an independent copy, a symbolic
+\* link dangles.  What a later checkout may delete is decided by the cache as it is then, not as it was.
+Evict(c) ==
+    /\ Idle /\ n >= 1 /\ n < MaxCheckouts /\ cache[c] = "ok"
+    /\ cache' = [cache EXCEPT ![c] = "none"]
+    /\ ws' = [ws EXCEPT !.files = [k \in AllKeys |->
+                  \* (two workspace files that were hard links to the same object stay linked to each other)
+                  IF @[k] # NoFile /\ @[k].c = c /\ @[k].lt = "hard"
+                     /\ Cardinality({x \in AllKeys : @[x] # NoFile /\ @[x].c = c /\ @[x].lt = "hard"}) = 1 THEN F(c, "copy")
+                  ELSE IF @[k] # NoFile /\ @[k].c = c /\ @[k].lt = "sym" THEN F("dangling", "sym")
+                  ELSE @[k]]]
+    /\ act' = [op |-> "Evict", c |-> c]
+    /\ UNCHANGED <<dirobjs, pc, args, todoDel, todoNew, needRm, pend, failed, res, touched, dev, n>>
+
 Targets == {[kind |-> "none"]} \cup {[kind |-> "file", c |-> c] : c \in Contents}
               \cup {[kind |-> "tree", listing |-> l] : l \in UNION {[S -> Contents] : S \in SUBSET Keys}}
 Next ==
     \/ \E t \in Targets, f \in BOOLEAN, r \in BOOLEAN, p \in Prompts, st \in BOOLEAN : Begin(t, f, r, p, st)
     \/ \E k \in AllKeys : RemoveDel(k) \/ PromptDel(k) \/ RemoveNew(k) \/ PromptNew(k) \/ Create(k) \/ CreateDangling(k)
     \/ End \/ Crash \/ EndDoomed
+    \/ \E c \in Contents : Evict(c)
 
 (******************************* properties *********************************)
 \* ---- C05: without force (and without an affirmative prompt) nothing that is not recoverable from
 \* the cache is removed or overwritten; evaluated on every single Remove step
 Unforced == ~args.force /\ args.prompt # "accepts"
-Recoverable(C, f) == f = NoFile \/ InCache(C, f.c)
+\* (a dangling symbolic link holds no bytes)
+Recoverable(C, f) == f = NoFile \/ f.c = "dangling" \/ InCache(C, f.c)
 \* only the bytes count: a file whose link type changes (its cache object went away) keeps its content
 C05_StepSafe(w, w2, C) == \A k \in AllKeys : (w.files[k] # NoFile /\ w2.files[k].c # w.files[k].c) => Recoverable(C, w.files[k])
 Inv_C05 == (dev = {} /\ pc # "idle" /\ Unforced) =>
